@@ -131,6 +131,31 @@ def check_model_lock(rep, rid_a, rid_b, core):
 
 
 
+def check_process_looks(rep, rid, core):
+    """every event emitted during a call is applied before it returns: each run of the executor in Core::process is followed by a
+    look at the event channel (R03.f; shared as R05.i and R08.k)"""
+    fs = [f for f in core.find('crux_core::core::Core::process') if f.kind == 'AssocFn']
+    rep.rule(rid, 'Core::process applies every queued event before it returns: each run of the executor is followed by a look at the event channel', floor=2)
+    from rules.common import Summaries
+    if fs:
+        f = fs[0]
+        sm = Summaries([core])
+        run_all = sm.sites(f, ['QueuingExecutor::run_all'], 'must')
+        recvs = [(bb, t) for bb, t in f.calls('capability::channel::Receiver::receive', 'capability::channel::Receiver::try_receive')]
+        rets = f.return_blocks()
+        if len(recvs) == 1 and run_all:
+            ne = c01.none_edges_of(f, *recvs[0])
+            rep.expect(rid, bool(ne) and all(r not in f.reachable([0], removed_edges=ne) for r in rets), 'return-only-when-empty',
+                       'the return is reachable only through the None edge of the event receive',
+                       'Core::process can return while events are still queued')
+            rep.expect(rid, bool(ne) and all(f.all_paths_pass(b, rets, via_edges=ne) for b in run_all), 'look-after-every-run',
+                       'every path from a run of the executor to the return passes the None edge of the event receive',
+                       'Core::process can run tasks and return without looking at the event channel again: the events they emitted are '
+                       'not applied by this call, and a later shell event is applied before them')
+        else:
+            rep.bad(rid, 'shape', 'Core::process: expected one event receive and at least one run_all')
+
+
 def check(ctx, rep):
     rep.rule('R03.a', 'App::update takes the model from a write guard of the core\'s model lock, App::view from a read guard', floor=2)
     rep.rule('R03.b', 'inside a model write-lock region only expect/deref_mut and one update are called; the guard is released before anything else runs', floor=1)
@@ -183,25 +208,7 @@ def check(ctx, rep):
             rep.expect('R03.c', direct, 'process|receive-to-update', 'the event passed to update is the Some payload of receive(), moved directly',
                        'Core::process: the event given to update does not come directly from the event channel (%s)' % [repr(o) for o in src])
     # R03.f: every event emitted during the call is applied before it returns (shared with C01 R01.a)
-    rep.rule('R03.f', 'Core::process applies every queued event before it returns: each run of the executor is followed by a look at the event channel', floor=2)
-    from rules.common import Summaries
-    if fs:
-        f = fs[0]
-        sm = Summaries([core])
-        run_all = sm.sites(f, ['QueuingExecutor::run_all'], 'must')
-        recvs = [(bb, t) for bb, t in f.calls('capability::channel::Receiver::receive', 'capability::channel::Receiver::try_receive')]
-        rets = f.return_blocks()
-        if len(recvs) == 1 and run_all:
-            ne = c01.none_edges_of(f, *recvs[0])
-            rep.expect('R03.f', bool(ne) and all(r not in f.reachable([0], removed_edges=ne) for r in rets), 'return-only-when-empty',
-                       'the return is reachable only through the None edge of the event receive',
-                       'Core::process can return while events are still queued')
-            rep.expect('R03.f', bool(ne) and all(f.all_paths_pass(b, rets, via_edges=ne) for b in run_all), 'look-after-every-run',
-                       'every path from a run of the executor to the return passes the None edge of the event receive',
-                       'Core::process can run tasks and return without looking at the event channel again: the events they emitted are '
-                       'not applied by this call, and a later shell event is applied before them')
-        else:
-            rep.bad('R03.f', 'shape', 'Core::process: expected one event receive and at least one run_all')
+    check_process_looks(rep, 'R03.f', core)
     # R03.h: an event a task emits is applied by the call that ran the task: both executors run to quiescence (shared with C01 R01.e)
     rep.rule('R03.h', 'both executor loops read both queues and return only after finding them empty again once any task has run', floor=5)
     c01.check_executor_loops(rep, core, rid='R03.h')
